@@ -113,6 +113,10 @@ def run(tier):
     t6 = os.path.join(wd, "charstring.ndjson")
     res = vlib.run_harness("fv-total", ["cs", "replay", "--cases", r.out, "--out", t6], timeout=3000)
     ck.add_harness("replay:charstring", res, traces=False)
+    # the same programs as glyphs of synthetic CFF fonts drawn through skrifa (scaled, hinted with every engine / target): the
+    # ManyStems members fill the hinter's map of 96 edges from both parities
+    res = vlib.run_harness("fv-total", ["cs", "skrifa", "--cases", r.out, "--out", os.path.join(wd, "charstring_skrifa.ndjson")], timeout=3000)
+    ck.add_harness("replay:charstring-skrifa", res, traces=False)
     os.remove(r.out)
     validate(ck, wd, "charstring", t6, module="CharstringTrace")
     t7 = os.path.join(wd, "charstring_corpus.ndjson")
